@@ -68,6 +68,12 @@ pub trait Api1 {
 	async fn sub(&self, a: u64, b: Option<String>) -> SubscriptionResult;
 	#[subscription(name = "subm" => "submNotif", unsubscribe = "unsubm", item = Vec<Value>, param_kind = map)]
 	async fn subm(&self, first: String, second_arg: Option<u64>) -> SubscriptionResult;
+	#[method(name = "raw_kw", param_kind = map)]
+	async fn raw_kw(&self, r#type: String, r#ref: Option<u64>) -> RpcResult<Vec<Value>>;
+	#[method(name = "raw_pos")]
+	fn raw_pos(&self, r#type: u64, r#fn: Option<String>) -> RpcResult<Vec<Value>>;
+	#[subscription(name = "suba" => "subaNotif", unsubscribe = "unsuba", aliases = ["ns.suba_alias", "bare_suba"], unsubscribe_aliases = ["ns.unsuba_alias", "bare_unsuba"], item = Vec<Value>)]
+	async fn suba(&self, a: u64) -> SubscriptionResult;
 }
 
 struct Impl(Log);
@@ -143,6 +149,26 @@ impl Api1Server for Impl {
 		sink.send(msg).await?;
 		Ok(())
 	}
+	async fn raw_kw(&self, r#type: String, r#ref: Option<u64>) -> RpcResult<Vec<Value>> {
+		let args = vec![js(&r#type), jo(&r#ref)];
+		self.0.lock().unwrap().push(("raw_kw".into(), args.clone()));
+		Ok(ret(&args))
+	}
+	fn raw_pos(&self, r#type: u64, r#fn: Option<String>) -> RpcResult<Vec<Value>> {
+		let args = vec![js(&r#type), jo(&r#fn)];
+		self.0.lock().unwrap().push(("raw_pos".into(), args.clone()));
+		Ok(ret(&args))
+	}
+	async fn suba(&self, pending: PendingSubscriptionSink, a: u64) -> SubscriptionResult {
+		let args = vec![js(&a)];
+		self.0.lock().unwrap().push(("suba".into(), args.clone()));
+		let sink = pending.accept().await?;
+		let msg = SubscriptionMessage::from(serde_json::value::to_raw_value(&ret(&args)).unwrap());
+		sink.send(msg).await?;
+		// stay open until the client unsubscribes
+		sink.closed().await;
+		Ok(())
+	}
 }
 
 // ---- descriptors (written next to the traits; trusted glue, cross-checked through both sides)
@@ -160,6 +186,65 @@ struct MD {
 	map: bool,
 	params: Vec<PD>,
 }
+/// wire names of raw-identifier parameters (as the macro spells them on HEAD)
+const RAW_TYPE: &str = "r#type";
+const RAW_REF: &str = "r#ref";
+
+/// name table of one declared item, for the `mres` op (registration order: name, unsubscribe name,
+/// aliases, unsubscribe aliases)
+#[derive(Clone)]
+struct ND {
+	key: &'static str,
+	ns: Option<(&'static str, &'static str)>,
+	is_sub: bool,
+	name: &'static str,
+	aliases: &'static [&'static str],
+	unsub: &'static str,
+	unsub_aliases: &'static [&'static str],
+}
+fn items() -> Vec<ND> {
+	let ns = Some(("ns", "."));
+	vec![
+		ND { key: "zero", ns: None, is_sub: false, name: "zero", aliases: &[], unsub: "", unsub_aliases: &[] },
+		ND { key: "blk", ns: None, is_sub: false, name: "blk", aliases: &[], unsub: "", unsub_aliases: &[] },
+		ND { key: "named", ns, is_sub: false, name: "named", aliases: &[], unsub: "", unsub_aliases: &[] },
+		ND { key: "aliased", ns, is_sub: false, name: "aliased", aliases: &["ns.alias1", "other_alias"], unsub: "", unsub_aliases: &[] },
+		ND { key: "sub", ns, is_sub: true, name: "sub", aliases: &[], unsub: "unsub", unsub_aliases: &[] },
+		ND { key: "suba", ns, is_sub: true, name: "suba", aliases: &["ns.suba_alias", "bare_suba"], unsub: "unsuba", unsub_aliases: &["ns.unsuba_alias", "bare_unsuba"] },
+	]
+}
+impl ND {
+	fn full(&self, n: &str) -> String {
+		match self.ns {
+			Some((a, b)) => format!("{a}{b}{n}"),
+			None => n.to_string(),
+		}
+	}
+	fn wire_names(&self) -> Vec<String> {
+		let mut v = vec![self.full(self.name)];
+		if self.is_sub {
+			v.push(self.full(self.unsub));
+		}
+		v.extend(self.aliases.iter().map(|s| s.to_string()));
+		v.extend(self.unsub_aliases.iter().map(|s| s.to_string()));
+		v
+	}
+	fn line(&self, idx: u64) -> String {
+		let l = |v: &[&str]| if v.is_empty() { "-".to_string() } else { v.iter().map(|a| hexs(a)).collect::<Vec<_>>().join(",") };
+		format!(
+			"mres {} {idx} {} {} {} {} {} {} {}",
+			self.key,
+			self.ns.map(|n| hexs(n.0)).unwrap_or("none".into()),
+			self.ns.map(|n| hexs(n.1)).unwrap_or("none".into()),
+			if self.is_sub { 1 } else { 0 },
+			hexs(self.name),
+			l(self.aliases),
+			if self.is_sub { hexs(self.unsub) } else { "-".into() },
+			l(self.unsub_aliases)
+		)
+	}
+}
+
 fn pd(name: &'static str, optional: bool, ty: u8) -> PD {
 	PD { name, optional, ty }
 }
@@ -177,6 +262,9 @@ fn methods() -> Vec<MD> {
 		MD { key: "aliased", rpc_name: "ns.aliased", aliases: &["ns.alias1", "other_alias"], map: false, params: vec![pd("a", false, 1)] },
 		MD { key: "sub", rpc_name: "ns.sub", aliases: &[], map: false, params: vec![pd("a", false, 1), pd("b", true, 2)] },
 		MD { key: "subm", rpc_name: "ns.subm", aliases: &[], map: true, params: vec![pd("first", false, 2), pd("second_arg", true, 1)] },
+		MD { key: "raw_kw", rpc_name: "ns.raw_kw", aliases: &[], map: true, params: vec![pd(RAW_TYPE, false, 2), pd(RAW_REF, true, 1)] },
+		MD { key: "raw_pos", rpc_name: "ns.raw_pos", aliases: &[], map: false, params: vec![pd(RAW_TYPE, false, 1), pd("r#fn", true, 2)] },
+		MD { key: "suba", rpc_name: "ns.suba", aliases: &["ns.suba_alias", "bare_suba"], map: false, params: vec![pd("a", false, 1)] },
 	]
 }
 fn desc_token(m: &MD) -> String {
@@ -261,6 +349,78 @@ async fn run(lines: Vec<String>, out: &mut Out) {
 
 	for line in lines {
 		let w: Vec<&str> = line.split(' ').collect();
+		if w[0] == "mres" {
+			// mres <key> <idx> …: which handler the idx-th registered name of the item reaches, probed by behaviour
+			use jsonrpsee::core::client::{ClientT, SubscriptionClientT, SubscriptionKind};
+			use jsonrpsee::rpc_params;
+			let nd = items().into_iter().find(|n| n.key == w[1]).unwrap();
+			let names = nd.wire_names();
+			let idx = w[2].parse::<usize>().unwrap() % names.len();
+			let n = names[idx].clone();
+			log.lock().unwrap().clear();
+			let target: String = if nd.is_sub {
+				let params = if nd.key == "sub" { rpc_params![7u64, "x"] } else { rpc_params![7u64] };
+				match client.subscribe::<Vec<Value>, _>(&names[0], params, &names[1]).await {
+					Err(e) => format!("E:subscribe:{e}"),
+					Ok(mut s0) => {
+						let _ = s0.next().await;
+						let id = match s0.kind() {
+							SubscriptionKind::Subscription(id) => serde_json::to_value(id).unwrap(),
+							_ => Value::Null,
+						};
+						log.lock().unwrap().clear();
+						let r = client.request::<Value, _>(&n, rpc_params![id.clone()]).await;
+						tokio::time::sleep(std::time::Duration::from_millis(1)).await;
+						let ran = log.lock().unwrap().first().map(|(k, _)| k.clone());
+						let t = match (&r, &ran) {
+							(Ok(Value::Bool(true)), None) => {
+								// a second unsubscribe of the same id must now answer false
+								match client.request::<Value, _>(&n, rpc_params![id]).await {
+									Ok(Value::Bool(false)) => "unsubscribe".to_string(),
+									other => format!("E:second-unsubscribe:{other:?}"),
+								}
+							}
+							// the subscription of `sub` ends by itself after one item: the unsubscribe handler answers false
+							(Ok(Value::Bool(false)), None) if nd.key == "sub" => "unsubscribe".to_string(),
+							(Ok(_), Some(k)) if *k == nd.key => "subscribe".to_string(),
+							(Ok(v), k) => format!("E:answered:{v}:ran:{k:?}"),
+							(Err(e), Some(k)) if *k == nd.key => { let _ = e; "subscribe".to_string() }
+							(Err(e), k) => format!("E:{e}:ran:{k:?}"),
+						};
+						drop(s0);
+						tokio::time::sleep(std::time::Duration::from_millis(1)).await;
+						t
+					}
+				}
+			} else {
+				let md = mds.iter().find(|m| m.key == nd.key).unwrap();
+				let mut rngp = Rng::new(idx as u64 + 1);
+				let r = if md.map {
+					let mut b = jsonrpsee::core::params::ObjectParams::new();
+					for p in &md.params {
+						b.insert(p.name, serde_json::from_str::<Value>(&gen_arg(&mut rngp, p.ty)).unwrap()).unwrap();
+					}
+					client.request::<Value, _>(&n, b).await
+				} else {
+					let mut b = jsonrpsee::core::params::ArrayParams::new();
+					for p in &md.params {
+						b.insert(serde_json::from_str::<Value>(&gen_arg(&mut rngp, p.ty)).unwrap()).unwrap();
+					}
+					client.request::<Value, _>(&n, b).await
+				};
+				let ran = log.lock().unwrap().first().map(|(k, _)| k.clone());
+				match (&r, &ran) {
+					(Ok(_), Some(k)) if *k == nd.key => "method".to_string(),
+					(r, k) => format!("E:{r:?}:ran:{k:?}"),
+				}
+			};
+			let expected = if !nd.is_sub { "method" } else if idx == 1 || idx >= 2 + nd.aliases.len() { "unsubscribe" } else { "subscribe" };
+			let orc = if target == expected { Ok(()) } else { Err(format!("request naming {n} (declared for the {expected} side of `{}`) reached: {target}", nd.key)) };
+			let t_out = if target.starts_with("E:") { format!("E:{}", hexs(&target)) } else { target.clone() };
+			out.count(&format!("mres.{}", expected));
+			out.line(line.clone(), format!("n={} t={}", hexs(&n), t_out), orc, true);
+			continue;
+		}
 		let md = mds.iter().find(|m| m.key == w[1]).unwrap().clone();
 		match w[0] {
 			"mcall" => {
@@ -290,6 +450,12 @@ async fn run(lines: Vec<String>, out: &mut Out) {
 					"odd_names" => Api1Client::odd_names(&client, a!(0, String), o!(1, u64)).await.map_err(|e| e.to_string()),
 					"aliased" => Api1Client::aliased(&client, a!(0, u64)).await.map_err(|e| e.to_string()),
 					"sub" => match Api1Client::sub(&client, a!(0, u64), o!(1, String)).await {
+						Ok(mut s) => s.next().await.map(|r| r.map_err(|e| e.to_string())).unwrap_or(Err("stream ended".into())),
+						Err(e) => Err(e.to_string()),
+					},
+					"raw_kw" => Api1Client::raw_kw(&client, a!(0, String), o!(1, u64)).await.map_err(|e| e.to_string()),
+					"raw_pos" => Api1Client::raw_pos(&client, a!(0, u64), o!(1, String)).await.map_err(|e| e.to_string()),
+					"suba" => match Api1Client::suba(&client, a!(0, u64)).await {
 						Ok(mut s) => s.next().await.map(|r| r.map_err(|e| e.to_string())).unwrap_or(Err("stream ended".into())),
 						Err(e) => Err(e.to_string()),
 					},
@@ -389,7 +555,18 @@ async fn run(lines: Vec<String>, out: &mut Out) {
 
 fn gen_lines(rng: &mut Rng, n: u64, lines: &mut Vec<String>) {
 	let mds = methods();
+	// every registered name of the name-table items, once
+	for nd in items() {
+		for i in 0..nd.wire_names().len() {
+			lines.push(nd.line(i as u64));
+		}
+	}
 	for _ in 0..n {
+		if rng.chance(1, 40) {
+			let nds = items();
+			let nd = rng.pick(&nds).clone();
+			lines.push(nd.line(rng.below(8)));
+		}
 		let md = rng.pick(&mds).clone();
 		let kind = if md.map { "m" } else { "a" };
 		let desc = desc_token(&md);
